@@ -583,6 +583,29 @@ func one(k *run.K) {
 	}) {
 		k.Check("reflexive", r0 && r1 && r2 && r3, "ExactEquals(g,g) = %v/%v/%v/%v for %s", r0, r1, r2, r3, base)
 	}
+	// signed zeros: the same ordinate +0 in one copy and -0 in the other, in every dimension the
+	// coordinate type has (X, Y, Z, M) — equal under every option subset
+	{
+		hasC := func(n model.Tree, _ *model.Tree) bool { return len(n.Coords) > 0 }
+		if ps := nodesOfType(base, hasC); len(ps) > 0 {
+			pz, nz := clone(base), clone(base)
+			pth := ps[k.Rng.Intn(len(ps))]
+			np, nn := at(&pz, pth), at(&nz, pth)
+			d := np.CT.Dimension()
+			tuple := k.Rng.Intn(len(np.Coords) / d)
+			dim := k.Rng.Intn(d)
+			if np.Type == geom.TypeLineString && tuple == 0 || tuple == len(np.Coords)/d-1 {
+				// keep closed curves closed bit for bit on each side: zero the same ordinate of both ends
+				for _, tt := range []int{0, len(np.Coords)/d - 1} {
+					if np.Coords[tt*d+dim] == np.Coords[tuple*d+dim] {
+						np.Coords[tt*d+dim], nn.Coords[tt*d+dim] = 0, math.Copysign(0, -1)
+					}
+				}
+			}
+			np.Coords[tuple*d+dim], nn.Coords[tuple*d+dim] = 0, math.Copysign(0, -1)
+			judgePair(k, pz, nz, "sign of a zero ordinate (dimension "+[]string{"X", "Y", "Z/M", "M"}[dim]+")")
+		}
+	}
 	pool := []model.Tree{base}
 	for i := 0; i < 6; i++ {
 		v, what := variant(k.Rng, base)
